@@ -8,6 +8,7 @@ from .state import State
 from .pathfacts import live_alts
 from .values import NONE, Num, Str, SStr, Cat, Obj, TupleV, Opaque, Choice, IterV, vkey
 from .absint import Raised, Frame
+from .poly import Poly
 from .model import AnalysisError
 from .exprs import getattr_value
 
@@ -24,6 +25,9 @@ def declare(c):
     c.rule('C18.R3', 'tiling: the match is the concatenation of capture groups 1, 2, 11, 12?, 13 and group 2 ends with '
                      '"*" + group 10 when a checksum is present', floor=2)
     c.rule('C18.R4', 'fullText joins exactly the attributes bound to the tiling groups, in order', floor=2)
+    c.rule('C18.R7', 'checksum bookkeeping on every path of parse: when the checksum group took part in the match, text is group 2 '
+                     'without its "*"+checksum tail, rawChecksum is "*"+group 10 and checksum is int(group 10) - whatever the '
+                     'number is; otherwise text is group 2 and both are None (validate() checksums leadingWhitespace + text)', floor=4)
     c.rule('C18.R5', 'freshness: every attribute a reader uses is re-assigned by every parse (no value of the previous '
                      'line survives)', floor=10)
     c.rule('C18.R6', 'the text a rendered checksum is computed over is the text validate() checks it against', floor=1)
@@ -164,6 +168,7 @@ def parse_rules(ctx, I, r5='C18.R5', freshness_only=False):
                                'would see the value of an earlier line' % a)
         if freshness_only:
             continue
+        checksum_bookkeeping(ctx, I, s)
         # R4 fullText
         for (s2, ft) in getattr_value(I, s.clone(), Obj('GP'), 'fullText', fr):
             ctx.instance('C18.R4', repr(ft)[:80])
@@ -184,13 +189,56 @@ def parse_rules(ctx, I, r5='C18.R5', freshness_only=False):
             has_ck = s2.heap.get(('GP', '_checksum')) is not NONE
             for q in seqs:
                 flat = ''.join(q)
-                flat_ok = re.match(r"^g1(g2|g2\[:-len\(.*g10.*\)\]\*g10)g11(g12)?g13$", flat.replace(' ', ''))
+                flat_ok = re.match(r"^g1(g2|g2\[:-1-len\([^\]]*g10\)\]\*g10)g11(g12)?g13$", flat.replace(' ', ''))
                 if not flat_ok:
                     ctx.report('C18.R4', 'GcodeParser.fullText', 'parts %s' % flat,
                                'fullText does not join leading whitespace, text, "*"+checksum, trailing whitespace, comment '
                                'and eol (groups 1, 2, 10, 11, 12, 13) in that order')
     ctx.sample({'rule': r5, 'reader_attributes': sorted(readers), 'parse_paths': len(ok_paths)})
     return ok_paths
+
+
+def checksum_bookkeeping(ctx, I, s):
+    from .externals import regex_guards
+    from .pathfacts import consistent
+    guards = regex_guards(I, 'REGEX_GCODE_LINE')
+    if guards is None or 10 not in guards[0] or guards[0][10] == ():
+        raise AnalysisError('anchor vanished: optional checksum group 10 of REGEX_GCODE_LINE')
+    base = 'M:REGEX_GCODE_LINE(SRC,0)'
+    k10 = ('nogroup', base, guards[0][10])
+    where = 'GcodeParser.parse'
+    for present in (True, False):
+        assume = {k10: frozenset([not present])}
+        if not consistent(s, assume):
+            continue
+        ctx.instance('C18.R7', ('checksum present' if present else 'no checksum', tuple(sorted((repr(k), tuple(sorted(map(str, v))))
+                                                                                          for k, v in s.dom.items() if k[0] != 'sgn'))[-3:]))
+        text = live_alts(s, s.heap.get(('GP', 'text')), assume)
+        raw = live_alts(s, s.heap.get(('GP', '_rawChecksum')), assume)
+        num = live_alts(s, s.heap.get(('GP', '_checksum')), assume)
+        if present:
+            for t in text:
+                cut = 'slice(%s.g2)[:%r]' % (base, (Poly.const(-1) - Poly.sym('len(%s.g10)' % base)))
+                if not (isinstance(t, SStr) and t.tag == cut):
+                    ctx.report('C18.R7', where, 'checksum present but text is %s' % (getattr(t, 'tag', t),),
+                               'on some path a line that carries a checksum keeps the "*<checksum>" tail in text (or cuts something '
+                               'else): validate() then checksums the checksum itself, stringify() renders it twice')
+            for r in raw:
+                ok = isinstance(r, Cat) and r.skeleton() == '*{}' and getattr(r.args()[0][1], 'tag', '') == base + '.g10'
+                if not ok:
+                    ctx.report('C18.R7', where, 'checksum present but rawChecksum is %r' % (r,),
+                               'rawChecksum must be "*" followed by the checksum digits exactly as they were written')
+            for n in num:
+                ok = isinstance(n, Num) and ('int(%s.g10)' % base) in repr(n.p)
+                if not ok:
+                    ctx.report('C18.R7', where, 'checksum present but checksum is %r' % (n,), 'checksum must be int(group 10)')
+        else:
+            for t in text:
+                if not (isinstance(t, SStr) and t.tag == base + '.g2'):
+                    ctx.report('C18.R7', where, 'no checksum but text is %s' % (getattr(t, 'tag', t),), 'text must be group 2 unchanged')
+            for r in raw + num:
+                if r is not NONE:
+                    ctx.report('C18.R7', where, 'no checksum but rawChecksum/checksum is %r' % (r,), 'both must be None')
 
 
 def advance_rules(ctx, I, ok_paths):
